@@ -27,24 +27,29 @@ Shapes == [
     A |-> [setup |-> "ok",   tests |-> <<[n |-> "check_deep", k |-> "deep"], [n |-> "check_f", k |-> "fail"], [n |-> "check_p", k |-> "pass"], [n |-> "test_x", k |-> "pass"]>>],
     B |-> [setup |-> "ok",   tests |-> <<[n |-> "check_deep", k |-> "deep"], [n |-> "check_p", k |-> "pass"], [n |-> "check_q", k |-> "pass"]>>],
     C |-> [setup |-> "fail", tests |-> <<[n |-> "check_p", k |-> "pass"]>>],
-    D |-> [setup |-> "ok",   tests |-> <<[n |-> "helper", k |-> "pass"]>>]
+    D |-> [setup |-> "ok",   tests |-> <<[n |-> "helper", k |-> "pass"]>>],
+    \* E and F belong to two further compilation units (compiler versions), each with its own contract `Tgt` deployed by
+    \* setUp(): E's Tgt cannot break the invariant, F's can - what is known about a contract name is per unit
+    E |-> [setup |-> "ok",   tests |-> <<[n |-> "invariant_flag", k |-> "pass"]>>],
+    F |-> [setup |-> "ok",   tests |-> <<[n |-> "invariant_flag", k |-> "fail"]>>]
 ]
-Names == <<"A", "B", "C", "D">>          \* sorted
+Names == <<"A", "B", "C", "D", "E", "F">>          \* the order of the run: compiler version, file, contract name
 
 \* the selections exercised, with the meaning of the options spelt out
 \*   contract: --contract NAME is the exact name; --match-contract RE is a regular-expression search in the name
 \*   test:     ^{--function prefix, default (check|invariant)_}.*{--match-test RE}, unless the RE is anchored itself
 Selections == <<
-    [argv |-> <<>>,                                              cs |-> {"A", "B", "C", "D"}, ts |-> {"check_deep", "check_f", "check_p", "check_q"}],
-    [argv |-> <<"--contract", "A">>,                            cs |-> {"A"},                ts |-> {"check_deep", "check_f", "check_p", "check_q"}],
-    [argv |-> <<"--match-contract", "A|C">>,                    cs |-> {"A", "C"},           ts |-> {"check_deep", "check_f", "check_p", "check_q"}],
-    [argv |-> <<"--match-test", "deep">>,                       cs |-> {"A", "B", "C", "D"}, ts |-> {"check_deep"}],
-    [argv |-> <<"--match-test", "^test_">>,                     cs |-> {"A", "B", "C", "D"}, ts |-> {"test_x"}],
-    [argv |-> <<"--function", "test_">>,                        cs |-> {"A", "B", "C", "D"}, ts |-> {"test_x"}],
-    [argv |-> <<"--contract", "Z">>,                            cs |-> {},                   ts |-> {"check_deep", "check_f", "check_p", "check_q"}],
+    [argv |-> <<>>,                                              cs |-> {"A", "B", "C", "D", "E", "F"}, ts |-> {"check_deep", "check_f", "check_p", "check_q", "invariant_flag"}],
+    [argv |-> <<"--contract", "A">>,                            cs |-> {"A"},                ts |-> {"check_deep", "check_f", "check_p", "check_q", "invariant_flag"}],
+    [argv |-> <<"--match-contract", "A|C">>,                    cs |-> {"A", "C"},           ts |-> {"check_deep", "check_f", "check_p", "check_q", "invariant_flag"}],
+    [argv |-> <<"--match-test", "deep">>,                       cs |-> {"A", "B", "C", "D", "E", "F"}, ts |-> {"check_deep"}],
+    [argv |-> <<"--match-test", "^test_">>,                     cs |-> {"A", "B", "C", "D", "E", "F"}, ts |-> {"test_x"}],
+    [argv |-> <<"--function", "test_">>,                        cs |-> {"A", "B", "C", "D", "E", "F"}, ts |-> {"test_x"}],
+    [argv |-> <<"--contract", "Z">>,                            cs |-> {},                   ts |-> {"check_deep", "check_f", "check_p", "check_q", "invariant_flag"}],
     \* (the regular expression is searched in the function *signature*, e.g. "check_p()")
     [argv |-> <<"--match-contract", "B", "--match-test", "p\\(">>, cs |-> {"B"},             ts |-> {"check_deep", "check_p"}],
-    [argv |-> <<"--match-contract", "^[BC]$", "--match-test", "^check_p">>, cs |-> {"B", "C"}, ts |-> {"check_p"}]
+    [argv |-> <<"--match-contract", "^[BC]$", "--match-test", "^check_p">>, cs |-> {"B", "C"}, ts |-> {"check_p"}],
+    [argv |-> <<"--match-contract", "E|F">>,                    cs |-> {"E", "F"},           ts |-> {"check_deep", "check_f", "check_p", "check_q", "invariant_flag"}]
 >>
 
 VARIABLES project,    \* the contracts present
@@ -62,7 +67,7 @@ S == Selections[sel]
 Selected(c) == c \in project /\ c \in S.cs
 Funs(c) == SelectSeq(Shapes[c].tests, LAMBDA t : t.n \in S.ts)
 
-Init == /\ project \in SUBSET {"A", "B", "C", "D"}
+Init == /\ project \in SUBSET {"A", "B", "C", "D", "E", "F"}
         /\ sel \in 1..Len(Selections)
         /\ depth \in BOOLEAN
         /\ pc = "contract" /\ ci = 1 /\ ti = 1
